@@ -1,6 +1,392 @@
 package eng
 
 // TraceSource is the source of the dependency-free runtime support package
-// rendered into every workspace as example.com/m/trace.
+// rendered into every workspace as example.com/m/trace.  Providers and the
+// generated drivers record events into it; the runner fingerprints the boxed
+// values afterwards with reflection.
 const TraceSource = `package trace
+
+// Event is one recorded step.
+type Event struct {
+	Kind string // call, ret, cleanup, bogus-cleanup, args, result, mark, ref, note
+	ID   string
+	Vals []interface{}
+	B1   bool // result: cleanup non-nil
+	B2   bool // result: error is the injected error of this section
+	B3   bool // result: error is nil
+	N    int
+}
+
+// Section is one injector call made by a driver.
+type Section struct {
+	Label    string
+	Injector string
+	Fault    string
+	Events   []Event
+	Panic    string
+}
+
+var (
+	Sections []*Section
+	cur      *Section
+	tok      = 100
+	failID   string
+	lastErr  *InjErr
+	seq      int
+)
+
+// InjErr is the error value injected by the fault plan.
+type InjErr struct {
+	ID  string
+	Seq int
+}
+
+func (e *InjErr) Error() string { return "injected failure of " + e.ID }
+
+func add(e Event) {
+	if cur == nil {
+		cur = &Section{Label: "outside"}
+		Sections = append(Sections, cur)
+	}
+	cur.Events = append(cur.Events, e)
+}
+
+// Begin opens a section; fault names the provider that must fail ("" = none).
+func Begin(label, injector, fault string) {
+	cur = &Section{Label: label, Injector: injector, Fault: fault}
+	Sections = append(Sections, cur)
+	failID = fault
+	lastErr = nil
+}
+
+// End closes the section.
+func End() { cur = nil; failID = "" }
+
+// Panicked records a recovered panic in the current section.
+func Panicked(msg string) {
+	if cur != nil {
+		cur.Panic = msg
+	}
+}
+
+// Tok returns a fresh token.
+func Tok() int { tok++; return tok }
+
+// P returns a pointer to a copy of v.
+func P[T any](v T) *T { return &v }
+
+// Itoa formats a token.
+func Itoa(n int) string {
+	if n == 0 {
+		return "0"
+	}
+	neg := n < 0
+	if neg {
+		n = -n
+	}
+	var b [24]byte
+	i := len(b)
+	for n > 0 {
+		i--
+		b[i] = byte('0' + n%10)
+		n /= 10
+	}
+	if neg {
+		i--
+		b[i] = '-'
+	}
+	return string(b[i:])
+}
+
+// Ev is a provider activation.
+type Ev struct {
+	id   string
+	fail bool
+	err  *InjErr
+}
+
+// Enter records a provider call with its arguments.
+func Enter(id string, args ...interface{}) *Ev {
+	add(Event{Kind: "call", ID: id, Vals: args})
+	e := &Ev{id: id}
+	if failID != "" && failID == id {
+		e.fail = true
+		seq++
+		e.err = &InjErr{ID: id, Seq: seq}
+		lastErr = e.err
+	}
+	return e
+}
+
+// Fail reports whether this activation must fail.
+func (e *Ev) Fail() bool { return e.fail }
+
+// Err is the injected error.
+func (e *Ev) Err() error { return e.err }
+
+// Tok returns a fresh token.
+func (e *Ev) Tok() int { return Tok() }
+
+// Ret records the provider's result.
+func (e *Ev) Ret(v interface{}) { add(Event{Kind: "ret", ID: e.id, Vals: []interface{}{v}}) }
+
+// Cleanup returns the provider's cleanup function.
+func (e *Ev) Cleanup() func() {
+	id := e.id
+	return func() { add(Event{Kind: "cleanup", ID: id}) }
+}
+
+// Bogus returns the cleanup handed out together with an error; it must never run.
+func (e *Ev) Bogus() func() {
+	id := e.id
+	return func() { add(Event{Kind: "bogus-cleanup", ID: id}) }
+}
+
+// Args records the injector's arguments.
+func Args(vals ...interface{}) { add(Event{Kind: "args", Vals: vals}) }
+
+// Result records what the injector returned.
+func Result(v interface{}, hasCleanup, cleanupNonNil bool, hasErr bool, err error) {
+	e := Event{Kind: "result", Vals: []interface{}{v}, B1: cleanupNonNil, B3: err == nil}
+	if err != nil && lastErr != nil {
+		if ie, ok := err.(*InjErr); ok && ie == lastErr {
+			e.B2 = true
+		}
+	}
+	if hasCleanup {
+		e.N |= 1
+	}
+	if hasErr {
+		e.N |= 2
+	}
+	add(e)
+}
+
+// Mark records a marker event.
+func Mark(id string) { add(Event{Kind: "mark", ID: id}) }
+
+// Ref records a reference value (e.g. the home-package evaluation of a value expression).
+func Ref(id string, v interface{}) { add(Event{Kind: "ref", ID: id, Vals: []interface{}{v}}) }
+
+// Note records a boolean observation made by generated code.
+func Note(id string, ok bool) { add(Event{Kind: "note", ID: id, B1: ok}) }
+`
+
+// RunnerHelper is the source of the reflection-based fingerprinting shared by
+// every generated runner (package main, file tree.go).
+const RunnerHelper = `package main
+
+import (
+	"encoding/json"
+	"fmt"
+	"os"
+	"reflect"
+	"sort"
+	"unsafe"
+
+	"example.com/m/trace"
+)
+
+type Tree struct {
+	K   string   ` + "`json:\"k\"`" + `
+	T   string   ` + "`json:\"t,omitempty\"`" + `
+	V   string   ` + "`json:\"v,omitempty\"`" + `
+	FN  []string ` + "`json:\"fn,omitempty\"`" + `
+	F   []*Tree  ` + "`json:\"f,omitempty\"`" + `
+	E   []*Tree  ` + "`json:\"e,omitempty\"`" + `
+	MK  []*Tree  ` + "`json:\"mk,omitempty\"`" + `
+	ID  int      ` + "`json:\"id,omitempty\"`" + `
+	To  *Tree    ` + "`json:\"to,omitempty\"`" + `
+	Nil bool     ` + "`json:\"nil,omitempty\"`" + `
+}
+
+type fp struct {
+	ids map[uintptr]int
+}
+
+func (f *fp) id(p uintptr) int {
+	if p == 0 {
+		return 0
+	}
+	if n, ok := f.ids[p]; ok {
+		return n
+	}
+	n := len(f.ids) + 1
+	f.ids[p] = n
+	return n
+}
+
+func (f *fp) tree(v reflect.Value, depth int) *Tree {
+	if !v.IsValid() {
+		return &Tree{K: "invalid", Nil: true}
+	}
+	t := &Tree{T: v.Type().String()}
+	if depth > 12 {
+		t.K = "deep"
+		return t
+	}
+	switch v.Kind() {
+	case reflect.Bool:
+		t.K, t.V = "bool", fmt.Sprint(v.Bool())
+	case reflect.Int, reflect.Int8, reflect.Int16, reflect.Int32, reflect.Int64:
+		t.K, t.V = "int", fmt.Sprint(v.Int())
+	case reflect.Uint, reflect.Uint8, reflect.Uint16, reflect.Uint32, reflect.Uint64, reflect.Uintptr:
+		t.K, t.V = "uint", fmt.Sprint(v.Uint())
+	case reflect.Float32, reflect.Float64:
+		t.K, t.V = "float", fmt.Sprint(v.Float())
+	case reflect.Complex64, reflect.Complex128:
+		t.K, t.V = "complex", fmt.Sprint(v.Complex())
+	case reflect.String:
+		t.K, t.V = "string", v.String()
+	case reflect.Struct:
+		t.K = "struct"
+		for i := 0; i < v.NumField(); i++ {
+			t.FN = append(t.FN, v.Type().Field(i).Name)
+			t.F = append(t.F, f.tree(v.Field(i), depth+1))
+		}
+	case reflect.Ptr:
+		t.K = "ptr"
+		if v.IsNil() {
+			t.Nil = true
+		} else {
+			t.ID = f.id(v.Pointer())
+			t.To = f.tree(v.Elem(), depth+1)
+		}
+	case reflect.UnsafePointer:
+		t.K = "unsafeptr"
+		if v.Pointer() == 0 {
+			t.Nil = true
+		} else {
+			t.ID = f.id(v.Pointer())
+		}
+	case reflect.Slice:
+		t.K = "slice"
+		if v.IsNil() {
+			t.Nil = true
+		} else {
+			if v.Len() > 0 {
+				t.ID = f.id(v.Pointer())
+			}
+			for i := 0; i < v.Len(); i++ {
+				t.E = append(t.E, f.tree(v.Index(i), depth+1))
+			}
+		}
+	case reflect.Array:
+		t.K = "array"
+		for i := 0; i < v.Len(); i++ {
+			t.E = append(t.E, f.tree(v.Index(i), depth+1))
+		}
+	case reflect.Map:
+		t.K = "map"
+		if v.IsNil() {
+			t.Nil = true
+		} else {
+			t.ID = f.id(v.Pointer())
+			keys := v.MapKeys()
+			sort.Slice(keys, func(i, j int) bool { return fmt.Sprint(keys[i]) < fmt.Sprint(keys[j]) })
+			for _, k := range keys {
+				t.MK = append(t.MK, f.tree(k, depth+1))
+				t.E = append(t.E, f.tree(v.MapIndex(k), depth+1))
+			}
+		}
+	case reflect.Chan:
+		t.K = "chan"
+		if v.IsNil() {
+			t.Nil = true
+		} else {
+			t.ID = f.id(v.Pointer())
+		}
+	case reflect.Func:
+		t.K = "func"
+		if v.IsNil() {
+			t.Nil = true
+		} else if v.Type().NumIn() == 0 && v.Type().NumOut() == 1 && v.CanInterface() {
+			var out []reflect.Value
+			func() {
+				defer func() { recover() }()
+				out = v.Call(nil)
+			}()
+			if len(out) == 1 {
+				t.To = f.tree(out[0], depth+1)
+			}
+		} else if v.Type().NumIn() == 0 && v.Type().NumOut() == 1 {
+			// unexported field holding a func: make it callable
+			var out []reflect.Value
+			func() {
+				defer func() { recover() }()
+				w := reflect.NewAt(v.Type(), unsafe.Pointer(v.UnsafeAddr())).Elem()
+				out = w.Call(nil)
+			}()
+			if len(out) == 1 {
+				t.To = f.tree(out[0], depth+1)
+			}
+		}
+	case reflect.Interface:
+		t.K = "iface"
+		if v.IsNil() {
+			t.Nil = true
+		} else {
+			t.To = f.tree(v.Elem(), depth+1)
+		}
+	default:
+		t.K = "other"
+	}
+	return t
+}
+
+type outEvent struct {
+	Kind string  ` + "`json:\"kind\"`" + `
+	ID   string  ` + "`json:\"id,omitempty\"`" + `
+	Vals []*Tree ` + "`json:\"vals,omitempty\"`" + `
+	B1   bool    ` + "`json:\"b1,omitempty\"`" + `
+	B2   bool    ` + "`json:\"b2,omitempty\"`" + `
+	B3   bool    ` + "`json:\"b3,omitempty\"`" + `
+	N    int     ` + "`json:\"n,omitempty\"`" + `
+}
+
+type outSection struct {
+	Label    string     ` + "`json:\"label\"`" + `
+	Injector string     ` + "`json:\"injector\"`" + `
+	Fault    string     ` + "`json:\"fault,omitempty\"`" + `
+	Panic    string     ` + "`json:\"panic,omitempty\"`" + `
+	Events   []outEvent ` + "`json:\"events\"`" + `
+}
+
+type outProg struct {
+	Name     string       ` + "`json:\"name\"`" + `
+	Panic    string       ` + "`json:\"panic,omitempty\"`" + `
+	Sections []outSection ` + "`json:\"sections\"`" + `
+}
+
+var enc = json.NewEncoder(os.Stdout)
+
+func runProg(name string, drive func()) {
+	trace.Sections = nil
+	out := outProg{Name: name}
+	func() {
+		defer func() {
+			if r := recover(); r != nil {
+				out.Panic = fmt.Sprint(r)
+			}
+		}()
+		drive()
+	}()
+	f := &fp{ids: map[uintptr]int{}}
+	for _, s := range trace.Sections {
+		os := outSection{Label: s.Label, Injector: s.Injector, Fault: s.Fault, Panic: s.Panic}
+		for _, e := range s.Events {
+			oe := outEvent{Kind: e.Kind, ID: e.ID, B1: e.B1, B2: e.B2, B3: e.B3, N: e.N}
+			for _, v := range e.Vals {
+				if v == nil {
+					oe.Vals = append(oe.Vals, &Tree{K: "iface", Nil: true})
+				} else {
+					oe.Vals = append(oe.Vals, f.tree(reflect.ValueOf(v), 0))
+				}
+			}
+			os.Events = append(os.Events, oe)
+		}
+		out.Sections = append(out.Sections, os)
+	}
+	enc.Encode(out)
+}
 `
